@@ -1,0 +1,18 @@
+// Copyright 2020 The Mellium Contributors.
+// Use of this source code is governed by the BSD 2-clause
+// license that can be found in the LICENSE file.
+
+//go:build verif
+
+package styling
+
+import (
+	"bufio"
+)
+
+// VerifSplit returns the split function of d so that a verification harness
+// can call it directly and read d.Style and d.Quote after every call.
+// It only exists when the verif build tag is set.
+func VerifSplit(d *Decoder) bufio.SplitFunc {
+	return d.scan
+}
